@@ -14,8 +14,7 @@ Hypotheses that are genuine restrictions of the input (each probed on the real c
 * `hk` (histograms): the rendered bucket keys of one family are pairwise different, i.e. `floatToGoString` is injective
   on the bounds that occur (C13) — otherwise two bounds would be reported under one `le`.
 -/
-import PromVerif.Lemmas.MultiprocessFamily
-import PromVerif.Lemmas.MultiprocessSpec
+import PromVerif.Lemmas.MultiprocessCompose
 
 namespace PromVerif.Props.C08
 open PromVerif.Py PromVerif.Generated.Multiprocess
@@ -27,129 +26,17 @@ theorem extract_ok : extractOk = true := by decide
 
 variable {V B : Type}
 
-/-- what the writer side guarantees about a directory listing (see the file header for the genuine restrictions) -/
-structure WFInput (bo : BOps B) (fs : List (SFile V)) : Prop where
-  files : ∀ f ∈ fs, WFFile f
-  one_type : ∀ c ∈ allContribs fs, ∀ c' ∈ allContribs fs, c.key.metric = c'.key.metric → c'.typ = c.typ
-  one_mode : ∀ c ∈ allContribs fs, ∀ c' ∈ allContribs fs, c.key.metric = c'.key.metric → c.typ = gaugeType →
-    c'.mode = c.mode
-  modes : ∀ c ∈ allContribs fs, c.typ = gaugeType → c.mode ∈ gaugeModes
-  no_pid_label : ∀ c ∈ allContribs fs, c.typ = gaugeType → ∀ l ∈ c.key.labels, l.1 ≠ pidLabel
-  bounds_parse : ∀ c ∈ allContribs fs, c.typ = histogramType → ∀ t, leText c = some t → (bo.parse t).isSome = true
 
-theorem mem_contribs {fs : List (SFile V)} {mn : Str} {c : Contrib V} (h : c ∈ contribs fs mn) :
-    c ∈ allContribs fs ∧ c.key.metric = mn := by
-  unfold contribs at h
-  have := List.mem_filter.mp h
-  exact ⟨this.1, by simpa using this.2⟩
 
-theorem kind_gauge (mode : Str) (h : mode ∈ gaugeModes) :
-    ∀ (vo : VOps V) (bo : BOps B) [DecidableEq B] (mn : Str) (cs : List (Contrib V)) (k : SKey),
-      (match kindOf gaugeType mode with
-        | .plainSum => sumValue vo cs k
-        | .histogram => histValue vo bo mn cs k
-        | kind => gaugeValue vo kind cs k) = gaugeValue vo (kindOf gaugeType mode) cs k := by
-  intro vo bo _ mn cs k
-  rcases rule_kind mode h with ⟨_, hk⟩ | ⟨_, hk⟩ | ⟨_, hk⟩ | ⟨_, hk⟩ | ⟨_, hk⟩ <;> rw [hk]
-
-theorem kind_hist (mode : Str) : kindOf histogramType mode = .histogram := by
-  have h1 : histogramType ≠ "gauge".toList := by decide
-  have h2 : histogramType = "histogram".toList := by decide
-  unfold kindOf
-  rw [if_neg h1, if_pos h2]
-
-theorem kind_plain (typ mode : Str) (hg : typ ≠ gaugeType) (hh : typ ≠ histogramType) : kindOf typ mode = .plainSum := by
-  have e1 : gaugeType = "gauge".toList := by decide
-  have e2 : histogramType = "histogram".toList := by decide
-  unfold kindOf
-  rw [if_neg (e1 ▸ hg), if_neg (e2 ▸ hh)]
-
-/-- one family: the record built by the reader, accumulated, is the spec's value function as a finite map -/
-theorem family_eq_spec (vo : VOps V) (bo : BOps B) [DecidableEq B] (fs : List (SFile V)) (h : WFInput bo fs)
-    (mn : Str) (c : Contrib V) (cs : List (Contrib V)) (hc : contribs fs mn = c :: cs)
-    (hk : c.typ = histogramType → (AL.keys (bucketSeries vo bo mn (contribs fs mn))).Nodup) :
-    ∃ m ss, (c :: cs).foldl famStep none = some m ∧ m.name = mn ∧ m.doc = helpOf fs mn ∧ m.typ = typOf fs mn ∧
-      accumulateSamples vo bo m = .ok ss ∧ (AL.keys ss).Nodup ∧ ∀ k, AL.get? ss k = value vo bo fs mn k := by
-  have hmem : ∀ c' ∈ c :: cs, c' ∈ allContribs fs ∧ c'.key.metric = mn := fun c' hc' => mem_contribs (hc ▸ hc')
-  have hc0 := hmem c List.mem_cons_self
-  have hty : ∀ c' ∈ cs, c'.typ = c.typ := fun c' hc' =>
-    h.one_type c hc0.1 c' (hmem c' (List.mem_cons_of_mem _ hc')).1 (hc0.2.trans (hmem c' (List.mem_cons_of_mem _ hc')).2.symm)
-  have hmo : c.typ = gaugeType → ∀ c' ∈ cs, c'.mode = c.mode := fun hg c' hc' =>
-    h.one_mode c hc0.1 c' (hmem c' (List.mem_cons_of_mem _ hc')).1
-      (hc0.2.trans (hmem c' (List.mem_cons_of_mem _ hc')).2.symm) hg
-  have hrec := famStep_fold c cs hty hmo
-  have hhelp : helpOf fs mn = c.key.help := by simp [helpOf, hc]
-  have htyp : typOf fs mn = c.typ := by simp [typOf, hc]
-  have hmode : modeOf fs mn = c.mode := by simp [modeOf, hc]
-  have hall : ∀ c' ∈ c :: cs, c'.typ = c.typ := by
-    intro c' hc'
-    rcases List.mem_cons.mp hc' with e | e
-    · rw [e]
-    · exact hty c' e
-  have main : ∃ ss, accumulateSamples vo bo (⟨c.key.metric, c.key.help, c.typ,
-        if c.typ = gaugeType then some c.mode else none, (c :: cs).map toRSample⟩ : Metric V) = .ok ss ∧
-      (AL.keys ss).Nodup ∧ ∀ k, AL.get? ss k = value vo bo fs mn k := by
-    by_cases hg : c.typ = gaugeType
-    · -- gauge
-      have hm := h.modes c hc0.1 hg
-      obtain ⟨ss, h1, h2, h3⟩ := family_gauge vo bo c.key.metric c.key.help c.mode (c :: cs) hm
-        (fun c' hc' => (hall c' hc').trans hg)
-        (fun c' hc' => h.no_pid_label c' (hmem c' hc').1 ((hall c' hc').trans hg))
-      refine ⟨ss, ?_, h2, ?_⟩
-      · rw [if_pos hg, hg]; exact h1
-      · intro k
-        rw [h3 k]
-        unfold value
-        simp only [hc, htyp, hmode, hg]
-        exact (kind_gauge c.mode hm vo bo mn (c :: cs) k).symm
-    · by_cases hh : c.typ = histogramType
-      · -- histogram
-        have hkk := hk hh
-        rw [hc] at hkk
-        obtain ⟨ss, h1, h2, h3⟩ := family_hist_get? vo bo mn c.key.help (if c.typ = gaugeType then some c.mode else none)
-          (c :: cs) (fun c' hc' => by rw [hall c' hc']; exact hg)
-          (fun c' hc' => h.bounds_parse c' (hmem c' hc').1 ((hall c' hc').trans hh)) hkk
-        refine ⟨ss, ?_, h2, ?_⟩
-        · rw [hc0.2, hh]; exact h1
-        · intro k
-          rw [h3 k]
-          unfold value
-          simp only [hc, htyp, hmode, hh, kind_hist]
-      · -- counter, summary, …
-        obtain ⟨ss, h1, h2, h3⟩ := family_plain vo bo c.key.metric c.key.help c.typ
-          (if c.typ = gaugeType then some c.mode else none) (c :: cs) hg hh
-          (fun c' hc' => by rw [hall c' hc']; exact hg)
-        refine ⟨ss, h1, h2, ?_⟩
-        intro k
-        rw [h3 k]
-        unfold value
-        simp only [hc, htyp, hmode, kind_plain c.typ c.mode hg hh]
-  obtain ⟨ss, h1, h2, h3⟩ := main
-  exact ⟨_, ss, hrec, hc0.2, hhelp.symm, htyp.symm, h1, h2, h3⟩
-
-theorem mapM_spec {α β γ : Type} (fE : α → PyM β) (Q : α → β → Prop) (g : β → γ) (g' : α → γ) (xs : List α)
-    (h : ∀ x ∈ xs, ∃ y, fE x = .ok y ∧ Q x y ∧ g y = g' x) :
-    ∃ ys, xs.mapM fE = .ok ys ∧ ys.map g = xs.map g' ∧ ∀ y ∈ ys, ∃ x ∈ xs, Q x y := by
-  induction xs with
-  | nil => exact ⟨[], rfl, rfl, fun y hy => by cases hy⟩
-  | cons x r ih =>
-    obtain ⟨y, h1, h2, h3⟩ := h x List.mem_cons_self
-    obtain ⟨ys, i1, i2, i3⟩ := ih (fun z hz => h z (List.mem_cons_of_mem _ hz))
-    refine ⟨y :: ys, ?_, ?_, ?_⟩
-    · rw [List.mapM_cons, h1, i1]; rfl
-    · simp [h3, i2]
-    · intro z hz
-      rcases List.mem_cons.mp hz with e | e
-      · exact ⟨x, List.mem_cons_self, e ▸ h2⟩
-      · obtain ⟨w, hw, hq⟩ := i3 z e
-        exact ⟨w, List.mem_cons_of_mem _ hw, hq⟩
-
-/-- **C08, main statement.**  For every listing of well-formed files, `merge` succeeds; it reports exactly the families
+/-- **C08, main statement** (`accumulate_eq_spec_partial`; `_partial`: the property as stated — "label sets are preserved and no
+    series is duplicated or dropped" for EVERY gauge — is false on the real code for a gauge that has a label NAMED `pid`
+    (`pid_label_collides`); what is missing is exactly that case, excluded by `WFInput.no_pid_label`).
+     For every listing of well-formed files, `merge` succeeds; it reports exactly the families
     that have a contribution, each once (`families`, `Nodup`); each family carries the help text and type of its
     contributions; its samples are the conversion of a dict `ss` whose keys are pairwise different (no series
     duplicated) and whose value at EVERY key `k` is the spec's `value` — in particular a key is present iff the spec
     gives it a value (no series dropped, none invented). -/
-theorem accumulate_eq_spec (vo : VOps V) (bo : BOps B) [DecidableEq B] (fs : List (SFile V)) (h : WFInput bo fs)
+theorem accumulate_eq_spec_partial (vo : VOps V) (bo : BOps B) [DecidableEq B] (fs : List (SFile V)) (h : WFInput bo fs)
     (hk : ∀ mn, typOf fs mn = histogramType → (AL.keys (bucketSeries vo bo mn (contribs fs mn))).Nodup) :
     ∃ out, merge vo bo (fs.map toFile) = .ok out ∧
       out.map (·.name) = families fs ∧ (families fs).Nodup ∧
@@ -192,12 +79,6 @@ theorem accumulate_eq_spec (vo : VOps V) (bo : BOps B) [DecidableEq B] (fs : Lis
     exact ⟨q2, q3, q4⟩
 
 /-! ### histograms: merged per bound, then cumulative; `_count` is the `+Inf` bucket -/
-
-theorem mem_bucketSeries (vo : VOps V) (bo : BOps B) [DecidableEq B] (mn : Str) (cs : List (Contrib V)) (L : Labels)
-    (hL : L ∈ groups (bucketContribs bo cs)) (kv : SKey × V) (h : kv ∈ groupSeries vo bo mn (bucketContribs bo cs) L) :
-    kv ∈ bucketSeries vo bo mn cs := by
-  unfold bucketSeries
-  exact List.mem_flatMap.mpr ⟨L, hL, h⟩
 
 /-- **histogram_merge_cumulative.**  For a histogram family, label set `L` and position `i` in `L`'s bounds sorted
     increasingly: the reported `_bucket` sample with `le = floatToGoString(bound i)` is the sum of the merged counts of
@@ -290,27 +171,11 @@ theorem gauge_value_declarative (vo : VOps V) (hirr : ∀ a, vo.lt a a = false)
 
 /-! ### no series dropped, none invented; labels come from the contributions -/
 
-theorem valuesFor_ne_nil (kf : Contrib V → SKey) (cs : List (Contrib V)) (k : SKey) :
-    valuesFor kf cs k ≠ [] ↔ ∃ c ∈ cs, kf c = k := by
-  unfold valuesFor
-  constructor
-  · intro h
-    cases hf : cs.filter (fun c => kf c = k) with
-    | nil => rw [hf] at h; exact absurd rfl h
-    | cons c r =>
-      have : c ∈ cs.filter (fun c => kf c = k) := hf ▸ List.mem_cons_self
-      have := List.mem_filter.mp this
-      exact ⟨c, this.1, by simpa using this.2⟩
-  · rintro ⟨c, hc, hk⟩ h
-    have : c ∈ cs.filter (fun c => kf c = k) := List.mem_filter.mpr ⟨hc, by simpa using hk⟩
-    have : c.value ∈ (cs.filter (fun c => kf c = k)).map (·.value) := List.mem_map.mpr ⟨c, this, rfl⟩
-    rw [h] at this; cases this
-
-/-- **help_labels_bounds_preserved** (with `accumulate_eq_spec`, which gives help text and type): a series has a value
+/-- **help_labels_bounds_preserved** (with `accumulate_eq_spec_partial`, which gives help text and type): a series has a value
     exactly when some contribution belongs to it, and its name and label set are that contribution's — for sums
     `(name, labels)`, for `all`/`liveall` gauges `labels + {pid}`, for `min`/`max`/`sum` gauges `(name, labels)`; a
     mostrecent series exists only if some contribution to it has a positive set-time. -/
-theorem series_iff_contribution (vo : VOps V) (cs : List (Contrib V)) (k : SKey) :
+theorem help_labels_bounds_preserved (vo : VOps V) (cs : List (Contrib V)) (k : SKey) :
     ((sumValue vo cs k).isSome = true ↔ ∃ c ∈ cs, plainKey c = k) ∧
     ((gaugeValue vo .gaugeMin cs k).isSome = true ↔ ∃ c ∈ cs, plainKey c = k) ∧
     ((gaugeValue vo .gaugeMax cs k).isSome = true ↔ ∃ c ∈ cs, plainKey c = k) ∧
@@ -336,24 +201,10 @@ theorem series_iff_contribution (vo : VOps V) (cs : List (Contrib V)) (k : SKey)
     | none => simp at hl
     | some x => rfl
 
-theorem mem_bucketContribs (bo : BOps B) (cs : List (Contrib V)) (x : Labels × B × V) (hx : x ∈ bucketContribs bo cs) :
-    ∃ c ∈ cs, ∃ t b, leText c = some t ∧ bo.parse t = some b ∧ x = (withoutLe c, b, c.value) := by
-  unfold bucketContribs at hx
-  obtain ⟨c, hc, hcx⟩ := List.mem_filterMap.mp hx
-  cases ht : leText c with
-  | none => simp only [ht] at hcx; cases hcx
-  | some t =>
-    simp only [ht] at hcx
-    cases hb : bo.parse t with
-    | none => simp only [hb, Option.map_none] at hcx; cases hcx
-    | some b =>
-      simp only [hb, Option.map_some, Option.some.injEq] at hcx
-      exact ⟨c, hc, t, b, ht, hb, hcx.symm⟩
-
 /-- histogram series come from the contributions too: every bucket/count key carries a contributed label set (without
     `le`) and, for buckets, `le = floatToGoString(b)` for a bound `b` some contribution's `le` text parses to — so if
     `float(floatToGoString(b)) = b` (C13) the reported bound IS the contributed bound -/
-theorem bucket_series_from_contribution (vo : VOps V) (bo : BOps B) [DecidableEq B] (mn : Str) (cs : List (Contrib V))
+theorem bucket_bounds_preserved (vo : VOps V) (bo : BOps B) [DecidableEq B] (mn : Str) (cs : List (Contrib V))
     (k : SKey) (hk : k ∈ AL.keys (bucketSeries vo bo mn cs)) :
     ∃ c ∈ cs, ∃ t b, leText c = some t ∧ bo.parse t = some b ∧
       ((k = (mn ++ "_count".toList, withoutLe c)) ∨
@@ -395,50 +246,9 @@ theorem bucket_series_from_contribution (vo : VOps V) (bo : BOps B) [DecidableEq
 
 /-! ### `mark_process_dead` -/
 
-theorem baseName_inj_gauge (f : SFile V) (hf : WFFile f) (m pid : Str) (hm : '_' ∉ m) (hp : '_' ∉ pid) :
-    baseName f.typ f.mode f.pid = baseName gaugeType m pid ↔ f.typ = gaugeType ∧ f.mode = m ∧ f.pid = pid := by
-  constructor
-  · intro h
-    have hs := congrArg (splitChar splitSep) h
-    rw [split_gauge m pid hm hp] at hs
-    by_cases hg : f.typ = gaugeType
-    · rw [hg, split_gauge f.mode f.pid hf.mode_sep hf.pid_sep] at hs
-      simp only [List.cons.injEq, and_true, true_and] at hs
-      exact ⟨hg, hs.1, List.append_cancel_right hs.2⟩
-    · rw [split_other f.typ f.mode f.pid hg hf.typ_sep hf.pid_sep] at hs
-      simp at hs
-  · rintro ⟨h1, h2, h3⟩; rw [h1, h2, h3]
-
-theorem deadName_eq (m pid : Str) : deadName m pid = baseName gaugeType m pid := by
-  rw [baseName_gauge]
-  simp [deadName, deadNameParts, gaugeType]
-
-theorem liveModes_spec (m : Str) : m ∈ liveModes ↔ m ∈ gaugeModes ∧ "live".toList.isPrefixOf m = true := by
-  unfold liveModes
-  rw [List.mem_filter]
-  have : livePrefix = "live".toList := by decide
-  rw [this]
-
-theorem liveModes_no_sep : ∀ m ∈ liveModes, '_' ∉ m := by decide
-
-theorem dead_pred (f : SFile V) (hf : WFFile f) (pid : Str) (hp : '_' ∉ pid) :
-    liveModes.any (fun m => decide ((toFile f).basename = deadName m pid)) = true ↔
-      (f.typ = gaugeType ∧ f.mode ∈ liveModes ∧ f.pid = pid) := by
-  rw [List.any_eq_true]
-  constructor
-  · rintro ⟨m, hml, he⟩
-    have he' : baseName f.typ f.mode f.pid = deadName m pid := of_decide_eq_true he
-    rw [deadName_eq] at he'
-    obtain ⟨h1, h2, h3⟩ := (baseName_inj_gauge f hf m pid (liveModes_no_sep m hml) hp).mp he'
-    exact ⟨h1, h2 ▸ hml, h3⟩
-  · rintro ⟨h1, h2, h3⟩
-    refine ⟨f.mode, h2, decide_eq_true ?_⟩
-    show baseName f.typ f.mode f.pid = deadName f.mode pid
-    rw [deadName_eq, h1, h3]
-
 /-- **live_modes_ignore_dead.**  `mark_process_dead(pid)` removes exactly the files of gauges in a `live*` mode written
     under `pid` and nothing else: afterwards the listing is `afterDeath pid` of the old one — every counter, summary,
-    histogram and non-live gauge file of the dead process is still there (so `accumulate_eq_spec` on the new listing
+    histogram and non-live gauge file of the dead process is still there (so `accumulate_eq_spec_partial` on the new listing
     sums dead processes for those and ranges over live processes only for `live*` gauges). -/
 theorem live_modes_ignore_dead (pid : Str) (hp : '_' ∉ pid) (fs : List (SFile V)) (hf : ∀ f ∈ fs, WFFile f)
     (hm : ∀ f ∈ fs, f.typ = gaugeType → f.mode ∈ gaugeModes) :
@@ -472,14 +282,13 @@ theorem afterDeath_keeps (pid : Str) (fs : List (SFile V)) (f : SFile V) (hf : f
 
 /-! ### independence of the listing order -/
 
-theorem contribs_perm (fs fs' : List (SFile V)) (h : fs.Perm fs') (mn : Str) : (contribs fs mn).Perm (contribs fs' mn) := by
-  unfold contribs allContribs
-  exact (List.Perm.flatMap_right _ h).filter _
-
-/-- **accumulate_perm.**  In a commutative semigroup every value that is a SUM — counter, summary and plain histogram
+/-- **accumulate_perm** (`_partial`: order-independence is proved for every value that is a sum and for the admissible
+    answers of min/max; NOT proved: equality of the whole output, which would need (i) a total order on bounds to make
+    the sorted bucket list canonical and (ii) fails anyway for mostrecent/min/max ties, which the property leaves open).
+     In a commutative semigroup every value that is a SUM — counter, summary and plain histogram
     series, `sum`/`livesum` gauges, and the merged count of every histogram bucket — does not depend on the order in
     which the directory is listed; for `min`/`max` the set of admissible answers (`IsMinimal`/`IsMaximal`) does not. -/
-theorem accumulate_perm (vo : VOps V) (hcomm : ∀ a b, vo.add a b = vo.add b a)
+theorem accumulate_perm_partial (vo : VOps V) (hcomm : ∀ a b, vo.add a b = vo.add b a)
     (hassoc : ∀ a b c, vo.add (vo.add a b) c = vo.add a (vo.add b c))
     (fs fs' : List (SFile V)) (h : fs.Perm fs') (mn : Str) (k : SKey) :
     sumValue vo (contribs fs mn) k = sumValue vo (contribs fs' mn) k ∧
@@ -529,11 +338,15 @@ theorem merged_perm (vo : VOps V) (bo : BOps B) [DecidableEq B] (hcomm : ∀ a b
 
 /-- `Int` values (a commutative monoid with a strict order), natural-number bounds read from decimal digits and rendered in unary (injective, structurally recursive) -/
 def intV : VOps Int := ⟨0, (· + ·), (fun a b => decide (a < b)), (fun a b => decide (a ≤ b)), (fun x => x != 0)⟩
+
 def natB : BOps Nat := ⟨fun s => some (parseDigits s), (fun a b => decide (a < b)), fun n => List.replicate n '|'⟩
 
 def kC : Key := ⟨"c".toList, "c_total".toList, [], "counts".toList⟩
+
 def kG : Key := ⟨"g".toList, "g".toList, [("l".toList, "x".toList)], "a gauge".toList⟩
+
 def kHb (le : String) : Key := ⟨"h".toList, "h_bucket".toList, [("le".toList, le.toList)], "a histogram".toList⟩
+
 def kHs : Key := ⟨"h".toList, "h_sum".toList, [], "a histogram".toList⟩
 
 /-- two processes; process 1 is listed first; a counter, a `livemin` gauge with a tie-free pair of values, and a
@@ -552,13 +365,6 @@ theorem demo_wf : WFInput natB demoFiles := by
   simp only [demoFiles, List.mem_cons, List.not_mem_nil, or_false] at hf
   rcases hf with h | h | h | h | h | h <;> subst h <;> exact ⟨by decide, by decide, by decide, by decide⟩
 
-theorem typOf_mem (fs : List (SFile V)) (mn t : Str) (h : typOf fs mn = t) (ht : t ≠ []) :
-    ∃ c ∈ contribs fs mn, c.typ = t := by
-  unfold typOf at h
-  cases hc : contribs fs mn with
-  | nil => rw [hc] at h; simp at h; exact absurd h ht
-  | cons c r => rw [hc] at h; simp at h; exact ⟨c, List.mem_cons_self, h⟩
-
 theorem demo_keys : ∀ mn, typOf demoFiles mn = histogramType →
     (AL.keys (bucketSeries intV natB mn (contribs demoFiles mn))).Nodup := by
   intro mn h
@@ -569,33 +375,43 @@ theorem demo_keys : ∀ mn, typOf demoFiles mn = histogramType →
   subst e
   decide
 
-/-- the hypotheses of `accumulate_eq_spec` are satisfiable by a non-trivial listing -/
+/-- the hypotheses of `accumulate_eq_spec_partial` are satisfiable by a non-trivial listing -/
 example : ∃ out, merge intV natB (demoFiles.map toFile) = .ok out ∧
     out.map (·.name) = families demoFiles ∧ (families demoFiles).Nodup ∧
     ∀ om ∈ out, om.doc = helpOf demoFiles om.name ∧ om.typ = typOf demoFiles om.name ∧
       ∃ ss, om.samples = convert ss ∧ (AL.keys ss).Nodup ∧ ∀ k, AL.get? ss k = value intV natB demoFiles om.name k :=
-  accumulate_eq_spec intV natB demoFiles demo_wf demo_keys
+  accumulate_eq_spec_partial intV natB demoFiles demo_wf demo_keys
 
 /-- … and what it computes there: counter 2+3, livemin min(5,-1), buckets 1|5|100 merged to 1|3|4 then cumulated to
     1|4|8, `_count` 8, `_sum` 8 -/
 example : value intV natB demoFiles "c".toList ("c_total".toList, []) = some 5 := by decide
+
 example : value intV natB demoFiles "g".toList ("g".toList, [("l".toList, "x".toList)]) = some (-1) := by decide
+
 example : value intV natB demoFiles "h".toList ("h_bucket".toList, [("le".toList, natB.fmt 5)]) = some 4 := by decide
+
 example : value intV natB demoFiles "h".toList ("h_bucket".toList, [("le".toList, natB.fmt 100)]) = some 8 := by decide
+
 example : value intV natB demoFiles "h".toList ("h_count".toList, []) = some 8 := by decide
+
 example : value intV natB demoFiles "h".toList ("h_sum".toList, []) = some 8 := by decide
+
 /-- after process 2 is marked dead its `livemin` file is gone (min becomes 5) while its counter still counts -/
 example : value intV natB (afterDeath "2".toList demoFiles) "g".toList ("g".toList, [("l".toList, "x".toList)]) = some 5 := by
   decide
+
 example : value intV natB (afterDeath "2".toList demoFiles) "c".toList ("c_total".toList, []) = some 5 := by decide
+
 /-- the `+Inf`-like bound 100 satisfies the hypotheses of `count_eq_inf_bucket` -/
 example : (100 : Nat) ∈ boundsOf (bucketContribs natB (contribs demoFiles "h".toList)) [] ∧
     (∀ y ∈ boundsOf (bucketContribs natB (contribs demoFiles "h".toList)) [], y ≠ 100 → natB.lt y 100 = true) ∧
     (∀ y ∈ boundsOf (bucketContribs natB (contribs demoFiles "h".toList)) [], natB.lt 100 y = false) := by decide
+
 /-- `Int` meets the order and monoid hypotheses of `gauge_value_declarative`, `accumulate_perm` -/
 example : (∀ a : Int, intV.lt a a = false) ∧ (∀ a b : Int, intV.add a b = intV.add b a) ∧
     (∀ a b c : Int, intV.add (intV.add a b) c = intV.add a (intV.add b c)) :=
   ⟨fun a => by simp [intV], fun a b => Int.add_comm a b, fun a b c => Int.add_assoc a b c⟩
+
 example : ∀ a b c : Int, intV.lt a b = true → intV.lt b c = true → intV.lt a c = true := by
   intro a b c h1 h2
   simp only [intV, decide_eq_true_eq] at *
